@@ -6,6 +6,9 @@ as-is configurations — sequential loop variables, a discarded self call taken 
 Bound to the code by compiling every enumerated body (also: a second enumerated function called from the guard
 or an argument, which gives nested loops after inlining) under `raw`, `opt:0` and `opt:31`, running both back
 ends, and judging the printed lines with spec/TailRecTrace.tla against the specification's results.
+Programs go through `vh run-programs` exactly as progcommon.run_programs does, but with a small instruction
+budget / TypeScript watchdog and WebAssembly first (see compile_and_run): with a defect in this area the compiled
+loops may never end and print on every iteration, which must end as a VIOLATION, not as a stuck or killed check.
 
   run_tailrec(pid, tier, d, stats) -> (fails, coverage)      used by checks/c01.py and checks/c02.py
   python3 checks/tailrec.py quick|thorough                   standalone (set VERIF_SCRATCH during development)
@@ -15,7 +18,6 @@ from concurrent.futures import ThreadPoolExecutor
 
 sys.path.insert(0, os.path.join(os.path.dirname(os.path.dirname(os.path.abspath(__file__))), "lib"))
 from vlib import *
-import progcommon as pc
 
 BUILDS = ["raw", 0, 31]
 PACK = 10                       # enumerated functions per compiled program
@@ -26,7 +28,7 @@ MODEL_CFGS = {"quick": ["TailRecMC.cfg", "TailRecMCdeep.cfg", "TailRecMCnest.cfg
 MUST_FAIL = [("TailRecAsIsSeq.cfg", "loop variables assigned one after another (before commit 8593e50)"),
              ("TailRecAsIsDiscard.cfg", "a discarded self call taken for a tail call")]
 # how many of the enumerated bodies of a universe are replayed at most (evenly spread over the sorted cases)
-REPLAY_SHARE = {"quick": 2500, "thorough": 30000}
+REPLAY_SHARE = {"quick": 2500, "thorough": 8000}
 
 
 # ------------------------------------------------------------------------------------------------ rendering
@@ -99,8 +101,9 @@ def expected_lines(cases):
     return [l for c in cases for call in c["calls"] if call["ok"] for l in call["lines"]]
 
 
-def runs_of(rec, kinds=("wasm", "ts")):
-    """[{name, out}] for every build x back end; a crash / trap / invalid module becomes a line of its own"""
+def runs_of(rec, kinds, cap):
+    """[{name, out}] for every build x back end; a crash / trap / invalid module becomes a line of its own;
+    at most `cap` lines of a run are kept (a loop that never ends may print millions)"""
     if rec.get("front") != "accepted":
         return [{"name": "front", "out": [f"<front end: {rec.get('front')} {rec.get('errors') or rec.get('crash')}>"]}]
     runs = []
@@ -110,7 +113,7 @@ def runs_of(rec, kinds=("wasm", "ts")):
             continue
         for k in kinds:
             if k in v:
-                out = list(v[k]["out"])[:MAX_LINES]
+                out = list(v[k]["out"])[:cap]
                 if v[k]["end"]["k"] != "return":
                     out.append("<" + json.dumps(v[k]["end"]) + ">")
                 runs.append({"name": f"{b}/{k}", "out": out})
@@ -164,7 +167,6 @@ def model_check(pid, tier):
 # ------------------------------------------------------------------------------------------------ replay
 FUEL = 3_000_000        # wasm instructions per program (a pack needs < 100 k): a wrongly compiled loop may never end
 TS_TIMEOUT_MS = 300     # ... and may print on every iteration (the TypeScript runner keeps up to 64 MiB of lines)
-MAX_LINES = 400         # of a run that are handed to TLC (a pack prints < 300)
 
 
 def run_programs_bounded(d, name, programs, jobs, backends, ts_timeout=TS_TIMEOUT_MS):
@@ -196,10 +198,10 @@ def compile_and_run(d, name, packs, jobs=8):
     wrecs = run_programs_bounded(d, name, [dict(p) for p in progs], jobs, "wasm")
     rows, fine = [], []
     for i, (p, prog, r) in enumerate(zip(packs, progs, wrecs)):
-        runs = runs_of(r, ("wasm",))
+        exp = expected_lines(p["cases"])
+        runs = runs_of(r, ("wasm",), len(exp) + 20)
         rows.append({"fns": [{k: c[k] for k in ("f", "g", "calls")} for c in p["cases"]], "runs": runs,
                      "program": prog["sources"]["Main"]})
-        exp = expected_lines(p["cases"])
         if all(run["out"] == exp for run in runs):
             fine.append(i)
     trecs = run_programs_bounded(d, name, [dict(progs[i]) for i in fine], min(jobs, 6), "ts")
@@ -207,7 +209,7 @@ def compile_and_run(d, name, packs, jobs=8):
         cut = [b for b, v in r.get("builds", {}).items() if v.get("ts", {}).get("end", {}).get("k") == "budget"]
         if cut:
             r = run_programs_bounded(d, name + "-again", [dict(progs[i])], 1, "ts", ts_timeout=5000)[0]
-        rows[i]["runs"] += runs_of(r, ("ts",))
+        rows[i]["runs"] += runs_of(r, ("ts",), len(expected_lines(packs[i]["cases"])) + 20)
     return rows
 
 
@@ -241,25 +243,42 @@ def recognition_drift(d, packs, rows, limit):
     return len(diffs), sum(n for n, _ in parts)
 
 
+CHUNK = 250             # compiled programs per TLC run of the acceptor
+
+
 def judge(pid, d, rows, tag, stats):
-    """TLC over the rows; returns the indices of the rows that violate PrintedOK / ExpectationIsSpec"""
-    bad = []
-    remaining = list(range(len(rows)))
-    while remaining and len(bad) < MAX_REPORTS:
-        tr = os.path.join(d, f"tailrec-trace-{tag}.ndjson")
-        write_ndjson(tr, [{"fns": rows[i]["fns"], "runs": rows[i]["runs"]} for i in remaining])
-        v = tlc("TailRecTrace", "TailRecTrace.cfg", env={"TRACE": tr}, deque=True, tag=f"{pid}trtr-{tag}", timeout=2400)
-        stats["tlc_states"] = stats.get("tlc_states", 0) + v.generated
-        if v.violated:
-            l = (v.last_l() or 2) - 1
-            bad.append((remaining[l - 1], v.violated))
-            remaining = remaining[:l - 1] + remaining[l:]
-            continue
-        if not v.ok:
-            log(v.out[-3000:])
-            tool_failure(f"TailRecTrace failed: {v.error}")
-        break
-    return bad
+    """TailRecTrace.tla over the rows (in chunks, a few TLC processes side by side); returns [(row index,
+    violated invariant)], at most MAX_REPORTS: after a violation the offending row is dropped and the rest of
+    its chunk is judged again, so one bad program does not hide others."""
+    chunks = [list(range(i, min(i + CHUNK, len(rows)))) for i in range(0, len(rows), CHUNK)]
+
+    def one(ci):
+        bad, remaining, states = [], list(chunks[ci]), 0
+        while remaining and len(bad) < MAX_REPORTS:
+            tr = os.path.join(d, f"tailrec-trace-{tag}-{ci}.ndjson")
+            write_ndjson(tr, [{"fns": rows[i]["fns"], "runs": rows[i]["runs"]} for i in remaining])
+            v = tlc("TailRecTrace", "TailRecTrace.cfg", env={"TRACE": tr}, deque=True, tag=f"{pid}trtr-{tag}-{ci}", timeout=2400, xmx="4g")
+            states += v.generated
+            if v.violated == "ExpectationIsSpec":      # generator and acceptor disagree about the specification itself
+                return bad, states, "the recorded expectation is not the specification's (TailRecMC.tla / TailRecTrace.tla out of step)\n" + v.out[-1500:]
+            if v.violated:
+                l = (v.last_l() or 2) - 1
+                bad.append((remaining[l - 1], v.violated))
+                remaining = remaining[:l - 1] + remaining[l:]
+                continue
+            if not v.ok:
+                return bad, states, f"{v.error}\n{v.out[-1500:]}"
+            break
+        return bad, states, None
+
+    with ThreadPoolExecutor(max_workers=4) as ex:
+        results = list(ex.map(one, range(len(chunks))))
+    for _, _, err in results:
+        if err:
+            log(err)
+            tool_failure("TailRecTrace failed")
+    stats["tlc_states"] = stats.get("tlc_states", 0) + sum(n for _, n, _ in results)
+    return [b for bad, _, _ in results for b in bad][:MAX_REPORTS]
 
 
 def minimise(pid, d, row, pack, stats):
@@ -291,7 +310,7 @@ def run_tailrec(pid, tier, d, stats):
         for i in range(0, len(cs), PACK):
             chunk = cs[i:i + PACK]
             # arguments as compile-time constants (the optimiser sees the loop bounds) / as run-time values
-            for opaque in ([True, False] if tier == "thorough" else [(i // PACK) % 2 == 0]):
+            for opaque in ([True, False] if tier == "thorough" and uni.startswith("nest") else [(i // PACK) % 2 == 0]):
                 packs.append({"cases": chunk, "opaque": opaque})
     rows = compile_and_run(d, "tailrec", packs)
     t_run = time.time() - t0 - t_mc
@@ -300,7 +319,7 @@ def run_tailrec(pid, tier, d, stats):
     for idx, inv in bad:
         for m in minimise(pid, d, rows[idx], packs[idx], stats):
             for run in m["wrong"]:
-                run["out"] = run["out"][:60]
+                run["out"] = run["out"][:200]
             path = save_replay(pid, "tailrec", {"case": m["case"], "program": m["program"], "builds": [str(b) for b in BUILDS]},
                                {"printed": m["expected"], "by": "Ref of spec/TailRec.tla"},
                                {"invariant": f"{inv} of spec/TailRecTrace.tla", "runs": m["wrong"]},
